@@ -40,6 +40,9 @@ pub struct Deserializer<'xml> {
 
     /// store extra events
     next_slot: VecDeque<DeEvent<'xml>>,
+
+    /// number of open elements
+    depth: usize,
 }
 
 /// XML deserialization result
@@ -102,6 +105,7 @@ impl<'xml> Deserializer<'xml> {
             inner: Reader::from_reader(xml),
             peeked: None,
             next_slot: VecDeque::new(),
+            depth: 0,
         }
     }
 
@@ -116,6 +120,7 @@ impl<'xml> Deserializer<'xml> {
         let mut text: Option<BytesText<'xml>> = None;
         loop {
             let ev = self.inner.read_event().map_err(invalid_xml)?;
+            let depth_of_text = self.depth;
             let de = match ev {
                 Event::Text(x) => {
                     text = Some(join_text(text.take(), x)?);
@@ -130,8 +135,14 @@ impl<'xml> Deserializer<'xml> {
                 // ignore the others
                 Event::Comment(_) | Event::Decl(_) | Event::PI(_) | Event::DocType(_) => continue,
 
-                Event::Start(x) => DeEvent::Start(x),
-                Event::End(x) => DeEvent::End(x),
+                Event::Start(x) => {
+                    self.depth = self.depth.saturating_add(1);
+                    DeEvent::Start(x)
+                }
+                Event::End(x) => {
+                    self.depth = self.depth.saturating_sub(1);
+                    DeEvent::End(x)
+                }
                 Event::Eof => DeEvent::Eof,
 
                 Event::Empty(x) => {
@@ -140,6 +151,12 @@ impl<'xml> Deserializer<'xml> {
                     DeEvent::Start(x)
                 }
             };
+            // only white space may surround the root element
+            if let Some(ref text) = text {
+                if depth_of_text == 0 && text.iter().any(|b| !matches!(b, b' ' | b'\t' | b'\r' | b'\n')) {
+                    return Err(DeError::InvalidContent);
+                }
+            }
             break match text {
                 Some(text) => {
                     self.next_slot.push_front(de);
